@@ -234,6 +234,10 @@ type Options struct {
 	ThriftRoot bool   // pass --thrift-root explicitly
 	Plugin     string // plugin name (-p), the executable must be on PATH via PluginDir
 	PluginDir  string
+	NoEmbedIDL bool `json:",omitempty"` // --no-embed-idl
+	// NonStrict: compile with compile.NonStrict() (fields may lack ids and requiredness). The
+	// command line has no flag for it, so such a job is generated by the in-process helper.
+	NonStrict bool `json:",omitempty"`
 }
 
 func (o Options) Prefix() string {
@@ -277,6 +281,12 @@ func (o Options) String() string {
 	}
 	if o.Plugin != "" {
 		p = append(p, "plugin")
+	}
+	if o.NoEmbedIDL {
+		p = append(p, "no-embed-idl")
+	}
+	if o.NonStrict {
+		p = append(p, "non-strict(api)")
 	}
 	if len(p) == 0 {
 		return "default"
@@ -440,6 +450,9 @@ func (j *Job) GenArgsTo(scratch, outDir, file string) []string {
 	if o.NoZap {
 		args = append(args, "--no-zap")
 	}
+	if o.NoEmbedIDL {
+		args = append(args, "--no-embed-idl")
+	}
 	if o.EnumStrict {
 		args = append(args, "--enum-text-marshal-strict")
 	}
@@ -478,6 +491,22 @@ func (e *Env) GenerateTo(j *Job, scratch, outDir string, extraEnv ...string) (ok
 	}
 	env = append(env, extraEnv...)
 	var sb strings.Builder
+	if j.Opts.NonStrict {
+		helper, err := e.helperOnce()
+		if err != nil {
+			return false, "[" + err.Error() + "]"
+		}
+		for _, f := range files {
+			rep, err := e.RunHelper(helper, scratch, j, f, outDir, filepath.Join(scratch, "thrift"), 0)
+			if err != nil {
+				return false, "[" + strings.Replace(err.Error(), scratch, "$S", -1) + "]"
+			}
+			if !rep.OK {
+				return false, fmt.Sprintf("[genhelper %s: %s: %s]\n", f, rep.Stage, rep.Err)
+			}
+		}
+		return true, ""
+	}
 	for _, f := range files {
 		o, err := runCmd(scratch, env, 120*time.Second, e.ThriftRW, j.GenArgsTo(scratch, outDir, f)...)
 		sb.WriteString(o)
